@@ -1560,6 +1560,27 @@ class LuaMinifyTokenWriter(BaseLuaWriter):
         )
         self._last_was_name_keyword_number = False
         self._last_was_newline = True
+        self._last_code = b''
+        self._last_was_number = False
+
+    def _fuses_with_last(self, code):
+        """Tests whether code, written directly after the last token, would
+        be read as part of a different token.
+
+        Args:
+          code: The code of the token about to be written.
+
+        Returns:
+          True if a space is needed between the last token and this one.
+        """
+        if self._last_was_newline or not self._last_code:
+            return False
+        last_c = self._last_code[-1:]
+        next_c = code[:1]
+        return ((last_c == b'-' and next_c == b'-') or  # a comment
+                (last_c == b'[' and next_c == b'[') or  # a long string
+                (last_c == b'.' and next_c == b'.') or  # a longer dots symbol
+                (self._last_was_number and next_c == b'.'))  # a number
 
     def to_lines(self):
         """
@@ -1617,15 +1638,22 @@ class LuaMinifyTokenWriter(BaseLuaWriter):
                 self._last_was_newline = False
                 yield token.code
             elif token.matches(lexer.TokNumber):
-                if self._last_was_name_keyword_number:
+                if (self._last_was_name_keyword_number or
+                        self._fuses_with_last(token.code)):
                     yield b' '
                 self._last_was_name_keyword_number = True
                 self._last_was_newline = False
                 yield token.code
             else:
+                if self._fuses_with_last(token.code):
+                    yield b' '
                 self._last_was_name_keyword_number = token.code in b'])}'
                 self._last_was_newline = False
                 yield token.code
+
+            if not token.matches(lexer.TokNewline):
+                self._last_code = token.code
+                self._last_was_number = token.matches(lexer.TokNumber)
 
 
 class LuaFormatterTokenWriter(LuaASTEchoWriter):
